@@ -71,6 +71,8 @@ package mast
 //@ smt (define-fun RootOK ((h Heap) (m Int)) Bool (LinkOK (Mast.root h m)))
 // A node has the shape every traversal relies on: n keys, n values, n+1 links.
 //@ smt (define-fun Shape ((h Heap) (r Int)) Bool (and (> r 0) (= (nvals h r) (nkeys h r)) (= (nlinks h r) (+ (nkeys h r) 1))))
+// DirtyPrivate: a node flagged dirty is never shared (what lets savePathForRoot skip the copy)
+//@ smt (define-fun DirtyPrivate ((h Heap)) Bool (forall ((r Int)) (! (=> (mastNode.dirty h r) (not (mastNode.shared h r))) :pattern ((mastNode.dirty h r)) :pattern ((mastNode.shared h r)))))
 // seqEq: two slices denote the same sequence (in possibly different heaps)
 //@ smt (define-fun seqEq ((h1 Heap) (s1 Slice) (h2 Heap) (s2 Slice)) Bool (and (= (sl.len s1) (sl.len s2)) (forall ((i Int)) (! (=> (and (<= 0 i) (< i (sl.len s1))) (= (elemAt h1 s1 i) (elemAt h2 s2 i))) :pattern ((elemAt h1 s1 i)) :pattern ((elemAt h2 s2 i))))))
 // SameSeqs: node r in h carries the same three sequences as node q in g
@@ -121,6 +123,7 @@ package mast
 
 //@ func (*mastNode).Dirty
 //@ tags C01 C02 C13
+//@ ensures dp [C02 C11 C13] (=> (DirtyPrivate H0) (DirtyPrivate H))
 //@ modifies mastNode.expected mastNode.source
 //@ requires nonnil (> node 0)
 //@ ensures def (and (= (mastNode.expected H node) 0) (= (mastNode.source H node) 0))
@@ -165,6 +168,7 @@ package mast
 
 //@ func emptyNodePointer
 //@ tags C01 C02 C09
+//@ ensures dp [C02 C11 C13] (=> (DirtyPrivate H0) (DirtyPrivate H))
 //@ modifies W Arr.Any@fresh Node.*@fresh mastNode.*@fresh
 //@ requires bf (and (>= branchFactor 0) (< branchFactor 4611686018427387904))
 //@ ensures fresh (and (> result W0) (<= result W) (FreshArrays H result W0))
@@ -175,6 +179,7 @@ package mast
 
 //@ func (*mastNode).xcopy
 //@ tags C01 C02 C11
+//@ ensures dp [C02 C11 C13] (=> (DirtyPrivate H0) (DirtyPrivate H))
 //@ modifies W Arr.Any@fresh Node.*@fresh mastNode.*@fresh
 //@ requires nonnil (> node 0)
 //@ ensures fresh [C02] (and (> result W0) (<= result W) (FreshArrays H result W0))
@@ -210,16 +215,17 @@ package mast
 //@ pure
 //@ requires nn (and (> node 0) (> mast 0) (not (= (Mast.keyOrder H mast) 0)))
 //@ requires shape [C01] (Shape H node)
-//@ requires sorted2 [C01] (=> (>= (nkeys H node) 2) (< (ord (KeyAt H node 0) (KeyAt H node 1)) 0))
+//@ requires sorted2 [T3] (=> (>= (nkeys H node) 2) (< (ord (KeyAt H node 0) (KeyAt H node 1)) 0))
 //@ loop 1 invariant nonneg (>= i 0)
 
 //@ func (*mastNode).ToMut
 //@ tags C01 C02 C11
+//@ ensures dp [C02 C11 C13] (=> (DirtyPrivate H0) (DirtyPrivate H))
 //@ safe-under healthy
 //@ modifies W Arr.Any@fresh Node.*@fresh mastNode.*@fresh
 //@ requires nn (and (> node 0) (> mast 0) (not (= (Mast.keyOrder H mast) 0)))
 //@ requires shape [C01] (Shape H node)
-//@ requires sorted2 [C01] (=> (>= (nkeys H node) 2) (< (ord (KeyAt H node 0) (KeyAt H node 1)) 0))
+//@ requires sorted2 [T3] (=> (>= (nkeys H node) 2) (< (ord (KeyAt H node 0) (KeyAt H node 1)) 0))
 //@ ensures same [C02] (=> (not (mastNode.shared H0 node)) (and (= result node) (= H H0)))
 //@ ensures copy [C02] (=> (mastNode.shared H0 node) (and (> result W0) (<= result W) (FreshArrays H result W0) (SameSeqs H result H0 node) (not (mastNode.shared H result)) (= (mastNode.expected H result) node) (= (mastNode.source H result) 0) (= (mastNode.dirty H result) (mastNode.dirty H0 node))))
 //@ ensures caps (and (= (sl.cap (Node.Key H result)) (sl.cap (Node.Key H0 node))) (= (sl.cap (Node.Value H result)) (sl.cap (Node.Value H0 node))) (= (sl.cap (Node.Link H result)) (sl.cap (Node.Link H0 node))))
@@ -248,6 +254,7 @@ package mast
 //@ func (*Mast).loadPersisted
 //@ trusted
 //@ tags C01 C02 C10 C11 C12 C16
+//@ ensures dp [C02 C11 C13] (=> (DirtyPrivate H0) (DirtyPrivate H))
 //@ modifies W G.loads Arr.Any@fresh Node.*@fresh mastNode.*@fresh Box.Bytes@fresh
 //@ requires nn (> m 0)
 //@ ensures ok (=> (= err anil) (and (> result0 0) (<= result0 W) (Shape H result0) (mastNode.shared H result0) (not (mastNode.dirty H result0)) (LinksOK H result0)))
@@ -260,6 +267,7 @@ package mast
 
 //@ func (*Mast).load
 //@ tags C01 C02 C10 C11 C12 C16
+//@ ensures dp [C02 C11 C13] (=> (DirtyPrivate H0) (DirtyPrivate H))
 //@ modifies W G.loads Arr.Any@fresh Node.*@fresh mastNode.*@fresh Box.Bytes@fresh
 //@ requires nn (> m 0)
 //@ requires ptrok (=> (= (a.tid link) tid.PmastNode) (and (> (a.val link) 0) (Shape H (a.val link))))
@@ -275,6 +283,7 @@ package mast
 
 //@ func (*mastNode).follow
 //@ tags C01 C02 C10 C11 C12 C16
+//@ ensures dp [C02 C11 C13] (=> (DirtyPrivate H0) (DirtyPrivate H))
 //@ modifies W G.loads Arr.Any@fresh Node.*@fresh mastNode.*@fresh Box.Bytes@fresh
 //@ requires nn (and (> node 0) (> mast 0))
 //@ requires idx (and (<= 0 i) (< i (nlinks H node)))
@@ -329,6 +338,7 @@ package mast
 //@ func (*mastNode).findNode
 //@ uses ordtrans
 //@ tags C01 C02 C10 C11 C12 C16
+//@ ensures dp [C02 C11 C13] (=> (DirtyPrivate H0) (DirtyPrivate H))
 //@ uses ord
 //@ modifies W G.loads Box.Any@fresh Box.Int@fresh Box.Bytes@fresh findOptions.path findOptions.currentHeight Arr.S_pathEntry Arr.Any@fresh Node.*@fresh mastNode.*@fresh
 //@ requires nn (and (> node 0) (> m 0) (> options 0) (not (= (Mast.keyOrder H m) 0)))
@@ -492,3 +502,38 @@ package mast
 //@ requires globals (GlobalsOK H)
 //@ loop 1 invariant idx (< i#2 (sl.len (findOptions.path H options&)))
 //@ loop 1 invariant closure [T3] (and (AllOK H) (PathOK H (findOptions.path H options&)))
+
+// ---------------------------------------------------------------------------------------
+// Mutation: copy-on-write along the search path
+
+// PathPrivate: the first n path entries are unshared and dirty
+//@ smt (define-fun PathPrivate ((h Heap) (p Slice) (n Int)) Bool (forall ((j Int)) (! (=> (and (<= 0 j) (< j n)) (and (not (mastNode.shared h (S_pathEntry.node (pathAt h p j)))) (mastNode.dirty h (S_pathEntry.node (pathAt h p j))))) :pattern ((pathAt h p j)))))
+
+//@ func (*Mast).savePathForRoot
+//@ tags C01 C02 C11 C12 C13
+//@ safe-under healthy
+//@ modifies W Mast.root Arr.S_pathEntry Arr.Any Node.*@fresh mastNode.dirty mastNode.expected mastNode.source mastNode.shared@fresh
+//@ requires nn (and (> m 0) (not (= (Mast.keyOrder H m) 0)) (> (sl.len path) 0))
+//@ requires pathok [C01 C02] (PathOK H path)
+//@ requires dirtyprivate [C02 C11 C13] (DirtyPrivate H)
+//@ ensures noerr (= err anil)
+//@ ensures root [C01 C13] (or (isNil (Mast.root H m)) (and (isPtr (Mast.root H m)) (mastNode.dirty H (a.val (Mast.root H m))) (not (mastNode.shared H (a.val (Mast.root H m)))) (Shape H (a.val (Mast.root H m)))))
+//@ ensures dirtyprivate [C02 C11 C13] (DirtyPrivate H)
+//@ loop 1 invariant idx [C01 C02 C11 C13] (and (<= 0 i) (<= i (sl.len path)) (PathOK H path) (PathPrivate H path i) (DirtyPrivate H))
+//@ loop 2 invariant idx [C01 C02 C11 C13] (and (<= (- 1) i#2) (<= i#2 (- (sl.len path) 2)) (PathOK H path) (PathPrivate H path (sl.len path)) (DirtyPrivate H))
+
+//@ func split
+//@ tags C01 C02 C09 C11 C12 C16
+//@ safe-under healthy
+//@ waive safe/panic#2 the in-code panic "non-nil tooSmall" is unreachable only under the key-range invariant of the tree (T3, not proved)
+//@ modifies W G.loads Arr.Any@fresh Node.*@fresh mastNode.*@fresh Box.Bytes@fresh
+//@ requires nn (and (> node 0) (> mast 0) (not (= (Mast.keyOrder H mast) 0)))
+//@ requires shape [C01] (Shape H node)
+//@ requires closure [T3] (and (AllOK H) (forall ((j Int)) (=> (and (<= 0 j) (< j (nkeys H node))) (not (= (ord (KeyAt H node j) key) 0)))))
+//@ ensures links [C01 C09] (=> (= err anil) (and (or (isNil leftLink) (and (isPtr leftLink) (> (a.val leftLink) W0) (Shape H (a.val leftLink)))) (or (isNil rightLink) (and (isPtr rightLink) (> (a.val rightLink) W0) (Shape H (a.val rightLink))))))
+//@ ensures fail (=> (isErr err) (and (isNil leftLink) (isNil rightLink)))
+//@ ensures dp [C02 C11 C13] (=> (DirtyPrivate H0) (DirtyPrivate H))
+//@ ensures closure [T3] (=> (= err anil) (AllOK H))
+//@ ensures healthy [C01] (=> healthy (= err anil))
+//@ ensures loads [C16] (>= (G.loads H) (G.loads H0))
+//@ loop 1 invariant idx (and (<= 0 splitIndex) (<= splitIndex (nkeys H node)))
